@@ -74,6 +74,14 @@ func (r *Run) SetBudget(d time.Duration) {
 	r.deadline = r.start.Add(d)
 }
 
+// SetBudgetFromNow is SetBudget counted from now (a later phase of a run gets its own budget).
+func (r *Run) SetBudgetFromNow(d time.Duration) {
+	if v, err := strconv.Atoi(os.Getenv("VERIF_BUDGET_S")); err == nil && v > 0 {
+		d = time.Duration(v) * time.Second
+	}
+	r.deadline = time.Now().Add(d)
+}
+
 // OverBudget reports whether the internal cap has been reached (and records the cap).
 func (r *Run) OverBudget() bool {
 	if !r.deadline.IsZero() && time.Now().After(r.deadline) {
